@@ -13,6 +13,7 @@ import (
 	"io"
 	"os"
 	"os/exec"
+	"path/filepath"
 	"sort"
 	"strings"
 	"time"
@@ -40,19 +41,20 @@ type Failure struct {
 }
 
 type Result struct {
-	Property     string         `json:"property"`
-	Tier         string         `json:"tier"`
-	Seed         uint64         `json:"seed"`
-	Evaluations  int            `json:"evaluations"`
-	Distinct     int            `json:"distinct_nontrivial"`
-	Rule         string         `json:"rule"`
-	Samples      []Case         `json:"samples"`
-	Distribution map[string]int `json:"distribution"`
-	Exhaustive   bool           `json:"exhaustive"`
-	ExhNote      string         `json:"exhaustive_note,omitempty"`
-	Unmodelled   int            `json:"unmodelled"`
-	Failures     []Failure      `json:"failures"`
-	WallS        float64        `json:"wall_s"`
+	Property      string         `json:"property"`
+	Tier          string         `json:"tier"`
+	Seed          uint64         `json:"seed"`
+	Evaluations   int            `json:"evaluations"`
+	Distinct      int            `json:"distinct_nontrivial"`
+	Rule          string         `json:"rule"`
+	Samples       []Case         `json:"samples"`
+	Distribution  map[string]int `json:"distribution"`
+	Exhaustive    bool           `json:"exhaustive"`
+	ExhNote       string         `json:"exhaustive_note,omitempty"`
+	Unmodelled    int            `json:"unmodelled"`
+	Failures      []Failure      `json:"failures"`
+	FailureCounts map[string]int `json:"failure_counts"`
+	WallS         float64        `json:"wall_s"`
 }
 
 type evaluator struct {
@@ -66,19 +68,24 @@ var evaluators = map[string]evaluator{}
 
 // H is the harness state of one campaign.
 type H struct {
-	res      Result
-	rn       *Runner
-	rng      *SplitMix
-	seen     map[string]bool
-	tier     string
-	maxFail  int
-	sampleEv int
+	res         Result
+	rn          *Runner
+	rng         *SplitMix
+	seen        map[string]bool
+	tier        string
+	maxFail     int
+	sampleEv    int
+	specOracles bool
+	perKey      map[string]int
 }
 
 func (h *H) tag(t string) { h.res.Distribution[t]++ }
 
 // Run evaluates one case and records it.
 func (h *H) Run(c Case) {
+	if h.specOracles && (c.Op == "sign" || c.Op == "seal" || c.Op == "sc_seal") {
+		c.A["spec"] = "1"
+	}
 	ev, ok := evaluators[c.Op]
 	if !ok {
 		panic("no evaluator for op " + c.Op)
@@ -97,10 +104,13 @@ func (h *H) Run(c Case) {
 	}
 	fs := ev.run(h, c)
 	for _, f := range fs {
-		if len(h.res.Failures) < h.maxFail {
+		// at most 3 recorded cases per failure key, so that one frequent failure cannot crowd out another
+		if h.perKey[f.Key] < 3 && len(h.res.Failures) < h.maxFail {
+			h.perKey[f.Key]++
 			f.Case = c
 			h.res.Failures = append(h.res.Failures, f)
 		}
+		h.res.FailureCounts[f.Kind+":"+f.Key]++
 	}
 }
 
@@ -252,9 +262,26 @@ func main() {
 		if !ok {
 			fatal("no campaign for %s", prop)
 		}
-		h := &H{rn: startRunner(runnerPath), rng: &SplitMix{s: seed*0x9e3779b97f4a7c15 + 0x1234567}, seen: map[string]bool{}, tier: tier, maxFail: 20, sampleEv: 37}
-		h.res = Result{Property: prop, Tier: tier, Seed: seed, Rule: c.rule, Distribution: map[string]int{}}
+		h := &H{rn: startRunner(runnerPath), rng: &SplitMix{s: seed*0x9e3779b97f4a7c15 + 0x1234567}, seen: map[string]bool{}, tier: tier, maxFail: 60, sampleEv: 37, perKey: map[string]int{}}
+		h.res = Result{Property: prop, Tier: tier, Seed: seed, Rule: c.rule, Distribution: map[string]int{}, FailureCounts: map[string]int{}}
 		t0 := time.Now()
+		// minimized failing cases of earlier runs are replayed first
+		if files, _ := filepath.Glob(filepath.Join("..", "corpus", prop, "*.json")); len(files) > 0 {
+			sort.Strings(files)
+			for _, f := range files {
+				b, err := os.ReadFile(f)
+				if err != nil {
+					continue
+				}
+				var rp struct {
+					Case Case `json:"case"`
+				}
+				if json.Unmarshal(b, &rp) == nil && rp.Case.Op != "" {
+					h.tag("corpus")
+					h.Run(rp.Case)
+				}
+			}
+		}
 		c.gen(h)
 		h.res.WallS = time.Since(t0).Seconds()
 		h.rn.Close()
@@ -275,8 +302,8 @@ func main() {
 		if err := json.Unmarshal(b, &rp); err != nil || rp.Case.Op == "" {
 			fatal("replay file has no case: %v", err)
 		}
-		h := &H{rn: startRunner(runnerPath), rng: &SplitMix{s: 1}, seen: map[string]bool{}, maxFail: 100, sampleEv: 1}
-		h.res = Result{Distribution: map[string]int{}}
+		h := &H{rn: startRunner(runnerPath), rng: &SplitMix{s: 1}, seen: map[string]bool{}, maxFail: 100, sampleEv: 1, perKey: map[string]int{}}
+		h.res = Result{Distribution: map[string]int{}, FailureCounts: map[string]int{}}
 		h.Run(rp.Case)
 		h.rn.Close()
 		out, _ := json.MarshalIndent(h.res.Failures, "", " ")
